@@ -1,8 +1,9 @@
 SPECIFICATION Spec
 CONSTANTS
-  Families = {"A1", "B", "C0", "E0", "K0"}
+  Families = {"A1", "B", "C0", "E0", "K0", "R"}
 INVARIANT CacheInDatainfo
 INVARIANT ConstantsHold
+INVARIANT EmittedConverts
 PROPERTY DriverOnlyIfAllowed
 PROPERTY ErrorLeavesNoTrace
 PROPERTY ValidIsServed
